@@ -71,33 +71,37 @@ func specPair(refRow, qryRow string, regions []regionSpec) pairSpec {
 			colOf[p] = i
 		}
 	}
-	// indels
-	i := 0
+	// indels, as the property states them. Insertions: maximal runs of columns the reference row has no base in,
+	// reported with the number of reference bases to their left. Deletions: maximal runs of CONSECUTIVE REFERENCE
+	// POSITIONS absent from the query ("reference bases P..P+L-1 are absent ... in ungapped reference coordinates"):
+	// bases the query inserts between two deleted reference bases do not make them two deletions.
 	left := 0 // reference bases to the left of column i
-	for i < len(r) {
-		switch {
-		case r[i] == '-':
-			j := i
-			for j < len(r) && r[j] == '-' {
-				j++
-			}
-			ps.indels = append(ps.indels, fmt.Sprintf("ins:%d:%d", left, j-i))
-			i = j
-		case q[i] == '-':
-			j := i
-			for j < len(r) && r[j] != '-' && q[j] == '-' {
-				j++
-			}
-			first, last := left+1, left+(j-i)
-			if first != 1 && last != nref {
-				ps.indels = append(ps.indels, fmt.Sprintf("del:%d:%d", first, j-i))
-			}
-			left += j - i
-			i = j
-		default:
+	for i := 0; i < len(r); {
+		if r[i] != '-' {
 			left++
 			i++
+			continue
 		}
+		j := i
+		for j < len(r) && r[j] == '-' {
+			j++
+		}
+		ps.indels = append(ps.indels, fmt.Sprintf("ins:%d:%d", left, j-i))
+		i = j
+	}
+	for p := 1; p <= nref; {
+		if q[colOf[p]] != '-' {
+			p++
+			continue
+		}
+		e := p
+		for e+1 <= nref && q[colOf[e+1]] == '-' {
+			e++
+		}
+		if p != 1 && e != nref {
+			ps.indels = append(ps.indels, fmt.Sprintf("del:%d:%d", p, e-p+1))
+		}
+		p = e + 1
 	}
 	// SNPs
 	for p := 1; p <= nref; p++ {
@@ -524,6 +528,14 @@ func variantPairs(tier string) []pairCase {
 		pairCase{"ATG--CC-CAAATTA", "ATGGT--ACAAATTA", "insertion of two, deletion of two, insertion"},
 		pairCase{"ATGCCCAAA-T-TA", "ATGCCCAAAG-CTA", "insertion, deletion, insertion near the end"},
 		pairCase{"-A-TGCCCAAATTA", "G-CTGCCCAAATTA", "insertion before base 1, deletion of base 1, insertion"})
+	// deleted base(s), the query's own insertion, deleted base(s) - no aligned base in between: the reference bases
+	// P..P+L-1 absent from the query are one run whatever the query inserts among them
+	out = append(out,
+		pairCase{"ATGC--CCAAATTA", "ATG-GT-CAAATTA", "deletion of base 4, insertion of two, deletion of base 5"},
+		pairCase{"ATGCC-CAAATTA", "ATG--G-AAATTA", "deletion of two, insertion, deletion of one"},
+		pairCase{"ATGCCCAAAT-TA", "ATGCCCAAA-G-A", "deletion, insertion, deletion near the end"},
+		pairCase{"ATGCCCAAATTA--", "ATGCCCAAA---GG", "deletion reaching the last base, then an insertion after it"},
+		pairCase{"ATGC-C-CAAATTA", "ATG-G-T-AAATTA", "deletion, insertion, deletion, insertion, deletion"})
 	// a deletion that includes the first reference base is not reported - also when alignment columns precede it
 	// (another sequence's or the query's own insertion before base 1)
 	out = append(out,
